@@ -7,6 +7,7 @@
 
 struct Content {
     std::string kind = "mix"; uint64_t seed = 1; int w = 64, h = 64, bd = 8, n = 10; int cut = -1; int val = 128;
+    int hold = 0, is_static = 0;   // hold k: every source picture is repeated k times; static: every picture equals picture 0
     int stride_pad = 0, stride_pad_c = 0, stride_pad_cr = 0, extra_rows = 0, pad_garbage = 0, scribble = 0, reuse_buffer = 0; uint64_t garbage_seed = 1;
 };
 inline void content_from_json(const J &j, Content &c) {
@@ -14,11 +15,12 @@ inline void content_from_json(const J &j, Content &c) {
     c.cut = (int)j.geti("cut", -1); c.val = (int)j.geti("val", 128); c.stride_pad = (int)j.geti("stride_pad", 0); c.stride_pad_c = (int)j.geti("stride_pad_c", c.stride_pad / 2);
     c.stride_pad_cr = (int)j.geti("stride_pad_cr", c.stride_pad_c);   // the three planes have independent pitches
     c.extra_rows = (int)j.geti("extra_rows", 0); c.pad_garbage = (int)j.geti("pad_garbage", 0); c.scribble = (int)j.geti("scribble", 0); c.reuse_buffer = (int)j.geti("reuse_buffer", 0);
-    c.garbage_seed = (uint64_t)j.geti("garbage_seed", 1);
+    c.garbage_seed = (uint64_t)j.geti("garbage_seed", 1); c.hold = (int)j.geti("hold", 0); c.is_static = (int)j.geti("static", 0);
 }
 // Deterministic frame i of the recipe; samples in [0, 2^bd).
 inline void gen_frame(const Content &c, int i, std::vector<uint16_t> &Y, std::vector<uint16_t> &U, std::vector<uint16_t> &V) {
     int W = c.w, H = c.h, cw = W / 2, ch = H / 2; int mx = (1 << c.bd) - 1; int sh = c.bd - 8;
+    if (c.hold > 1) i -= i % c.hold; if (c.is_static) i = 0;
     Y.assign((size_t)W * H, 0); U.assign((size_t)cw * ch, 0); V.assign((size_t)cw * ch, 0);
     uint64_t seed = c.seed; if (c.cut >= 0 && i >= c.cut) seed = seed * 31 + 17;
     Rng r(seed * 1000003ULL + (uint64_t)i);
@@ -57,6 +59,11 @@ inline void gen_frame(const Content &c, int i, std::vector<uint16_t> &Y, std::ve
         int phase = (i / 4) % 3;
         if (phase == 1) { for (auto &v : Y) v = clampv(c.val << sh); for (auto &v : U) v = clampv(128 << sh); for (auto &v : V) v = clampv(128 << sh); }
         else { for (auto &v : Y) v = (uint16_t)(r.next() & mx); for (auto &v : U) v = (uint16_t)(r.next() & mx); for (auto &v : V) v = (uint16_t)(r.next() & mx); }
+    }
+    else if (k == "grainy") { // smooth, slowly varying picture + fine noise: what film-grain estimation needs (flat blocks with a measurable noise level)
+        auto nz = [&]() { int a = (int)(r.next() & 15), b = (int)(r.next() & 15); return a + b - 15; };   // triangular, about +-15
+        for (int y = 0; y < H; y++) for (int x = 0; x < W; x++) Y[(size_t)y * W + x] = clampv(((90 + (x + 2 * i) / 8 + y / 16) + nz() * c.val / 128) << sh);
+        for (int y = 0; y < ch; y++) for (int x = 0; x < cw; x++) { U[(size_t)y * cw + x] = clampv((110 + y / 8 + nz() * c.val / 256) << sh); V[(size_t)y * cw + x] = clampv((140 - x / 8 + nz() * c.val / 256) << sh); }
     }
     else { // "mix": gradient + motion + mild noise (the prototype's content)
         for (int y = 0; y < H; y++) for (int x = 0; x < W; x++) Y[(size_t)y * W + x] = clampv((((x * 3 + i * 5 + y) & 255) + (int)(r.next() & 31)) << sh & mx);
